@@ -112,7 +112,7 @@ func cmdCheck(args []string) {
 	var blocks []*Block
 	pkgs := map[string]bool{}
 	for _, b := range prog.BlockList {
-		if (b.Kind == "func" || b.Kind == "lemma") && contains(b.Props, *prop) {
+		if (b.Kind == "func" || b.Kind == "lemma") && !b.Axiom && contains(b.Props, *prop) {
 			blocks = append(blocks, b)
 			pkgs[b.Pkg] = true
 		}
